@@ -151,6 +151,21 @@ CHECKS = {
         note="K.learning_phase does not exist under the pinned Keras 3 and is stubbed; power-of-two / binary / ternary training-phase distributions are "
              "not covered.",
         ref="DESIGN.md section 3 C08"),
+    "C18": dict(
+        level="model_checking", engine="pysym",
+        technique="symbolic execution of estimate.analyze_accumulator on real layer objects with z3-backed weights and input range (all feasible paths), NRA queries on the exact worst case",
+        text="Only the weight-based estimator clause: for every path of analyze_accumulator (signs of the weights are decided by forking) the solver "
+             "decides that the worst-case pre-activation magnitude over the input box does not exceed the value whose ceil-log2 is returned.",
+        note="The data-type-map clauses need QTools(model), whose graph construction aborts under the pinned Keras 3: not covered.  unfold_model is cut "
+             "to the identity.",
+        ref="DESIGN.md section 3 C18"),
+    "C20": dict(
+        level="model_checking", engine="pysym",
+        technique="symbolic execution of ForgivingFactor.delta and ForgivingFactorBits size model on z3-backed reals/ints (NRA/NIA queries)",
+        text="delta: zero at equal sizes, strictly decreasing in the trial size (two symbolic trials), positive below / negative above the reference; "
+             "size model: parameters and activations equal elements x bits of the applied quantizer (reference width where none), reference = stress x size.",
+        note="The hyper-model / search-space clauses are NOT covered: qkeras.autoqkeras cannot be imported under the pinned environment.",
+        ref="DESIGN.md section 3 C20"),
 }
 
 NOT_YET = "check not built yet in this revision (see DESIGN.md section 7 build order)"
